@@ -770,6 +770,17 @@ pub fn run_histories(out: &mut Out, rng: &mut Rng, tier: Tier, mask: u64) {
                     Op { opcode: 10, szc: 0, page: sign_extend(s) & !0xfff, frame: sign_extend(e) & !0xfff, flags: 0, pflags: 0 }
                 };
                 out.input_class("window:parent-not-present");
+                // In a third of the windows a `map_to` of a 4 KiB page *through* the switched-off entry comes first: its
+                // parent flags contain PRESENT, so the walk switches the entry on again and must reuse the table behind
+                // it (no frame requested for that level, nothing orphaned) - the documented way out of such a state.
+                if rng.chance(1, 3) {
+                    let base = op.page & !0x1f_ffff;
+                    let pg = sign_extend(base.wrapping_add(rng.below(512) * 4096)) & !0xfff;
+                    let m = Op { opcode: 1, szc: 0, page: pg, frame: rand_frame(rng, 0, &canaries), flags: leaf_flags(rng, 0) | 1, pflags: 0 };
+                    hist.pages.push((pg, 0));
+                    out.input_class("window:map-through-disabled-parent");
+                    window.push_back(m);
+                }
                 window.push_back(cu);
                 window.push_back(restore);
             }
